@@ -59,6 +59,76 @@ def render(rng, toks, adversarial):
     return b"".join(out)
 
 
+KEYWORDS = [b"syntax", b"edition", b"import", b"weak", b"public", b"package", b"option", b"true", b"false", b"inf", b"nan", b"repeated", b"optional",
+            b"required", b"double", b"float", b"int32", b"int64", b"uint32", b"uint64", b"sint32", b"sint64", b"fixed32", b"fixed64", b"sfixed32",
+            b"sfixed64", b"bool", b"string", b"bytes", b"group", b"oneof", b"map", b"extensions", b"to", b"max", b"reserved", b"enum", b"message",
+            b"extend", b"service", b"rpc", b"stream", b"returns", b"export", b"local", b"foo"]
+
+
+def unique_render(toks, variant):
+    """the tokens with a DIFFERENT piece of trivia in front of each one (numbered comments, alternating whitespace), so that any
+    token the AST holds out of order, twice or not at all changes the printed text"""
+    out = []
+    for i, t in enumerate(toks):
+        k = (i + variant) % 5
+        pre = [b" ", b"/*%d*/" % i, b"\n", b"\t/*%d*/ " % i, b" /*%d*/\n" % i][k] if i or variant % 2 else b""
+        out.append(pre + t)
+    out.append([b"", b"\n", b" // e%d" % variant, b" /*z*/ "][variant % 4])
+    return b"".join(out)
+
+
+def grammar_cases(ctx):
+    """small files that put every keyword as the first, a middle and the last component of a (dotted) identifier in every position of
+    the grammar that takes one - the grammar has separate productions for identifiers that start with a keyword - plus every kind of
+    declaration once; each token gets its own trivia (unique_render).  Most are only parsed (unresolvable names are fine)."""
+    out = []
+
+    def dotted(parts, lead=False):
+        r = [b"."] if lead else []
+        for i, x in enumerate(parts):
+            if i:
+                r.append(b".")
+            r.append(x)
+        return r
+
+    H2, H3, HE = [b"syntax", b"=", b"\"proto2\"", b";"], [b"syntax", b"=", b"\"proto3\"", b";"], [b"edition", b"=", b"\"2023\"", b";"]
+    v = 0
+    for K in KEYWORDS:
+        idents = [dotted([K, b"a", b"B"]), dotted([b"a", K, b"B"]), dotted([b"a", b"b", K]), dotted([K, b"a", b"B"], True), dotted([K]), dotted([K, K])]
+        for idn in idents:
+            shapes = [
+                H3 + [b"message", b"M", b"{"] + idn + [b"f", b"=", b"1", b";", b"}"],
+                H2 + [b"message", b"M", b"{", b"optional"] + idn + [b"f", b"=", b"1", b";", b"repeated"] + idn + [b"g", b"=", b"2", b";", b"}"],
+                H3 + [b"message", b"M", b"{", b"map", b"<", b"string", b","] + idn + [b">", b"m", b"=", b"1", b";", b"oneof", b"o", b"{"] + idn + [b"x", b"=", b"2", b";", b"}", b"}"],
+                H3 + [b"service", b"S", b"{", b"rpc", b"R", b"("] + idn + [b")", b"returns", b"(", b"stream"] + idn + [b")", b";", b"}"],
+                H2 + [b"extend"] + idn + [b"{", b"optional", b"int32", b"e", b"=", b"100", b";", b"}"],
+                H3 + [b"option", b"("] + idn + [b")", b"."] + idn[-1:] + [b"=", b"1", b";", b"message", b"M", b"{", b"int32", b"f", b"=", b"1", b"[", b"("] + idn + [b")", b"=", b"{"] + idn[-1:] + [b":"] + idn[-1:] + [b"}", b"]", b";", b"}"],
+                HE + [b"message", b"M", b"{"] + idn + [b"f", b"=", b"1", b";", b"reserved"] + idn[-1:] + [b";", b"}"],
+            ]
+            if len(idn) <= 1 or idn[0] != b".":
+                shapes.append(H3 + [b"package"] + idn + [b";", b"message"] + idn[-1:] + [b"{", b"int32"] + idn[-1:] + [b"=", b"1", b";", b"enum", b"E", b"{"] + idn[-1:] + [b"=", b"0", b";", b"}", b"}"])
+            for sh in shapes:
+                out.append(unique_render(sh, v))
+                v += 1
+    # every kind of declaration once (visibility modifiers, groups, extension ranges with options, reserved, aggregates, rpc bodies)
+    decls = [
+        HE + [b"export", b"message", b"A", b"{", b"local", b"enum", b"E", b"{", b"X", b"=", b"0", b";", b"}", b"export", b"message", b"B", b"{", b"}", b"}", b"local", b"enum", b"F", b"{", b"Y", b"=", b"0", b";", b"}"],
+        H2 + [b"message", b"M", b"{", b"optional", b"group", b"G", b"=", b"1", b"[", b"deprecated", b"=", b"true", b"]", b"{", b"optional", b"int32", b"x", b"=", b"1", b";", b"}",
+              b"extensions", b"10", b"to", b"20", b",", b"30", b"to", b"max", b"[", b"(", b"a", b")", b"=", b"1", b",", b"(", b"b", b")", b"=", b"\"s\"", b"]", b";",
+              b"reserved", b"2", b",", b"3", b"to", b"5", b";", b"reserved", b"\"q\"", b",", b"'r'", b";", b"}"],
+        H3 + [b"import", b"public", b"\"a.proto\"", b";", b"import", b"weak", b"\"b.proto\"", b";", b"import", b"\"c\"", b"'d.proto'", b";",
+              b"option", b"(", b"o", b")", b"=", b"{", b"a", b":", b"1", b",", b"b", b"{", b"c", b":", b"[", b"1", b",", b"2", b"]", b"}", b";", b"[", b"x.y/z", b"]", b"<", b"d", b":", b"-", b"inf", b">", b"}", b";"],
+        H3 + [b"service", b"S", b"{", b"option", b"deprecated", b"=", b"false", b";", b"rpc", b"R", b"(", b"stream", b".", b"a", b".", b"B", b")", b"returns", b"(", b"C", b")", b"{", b"option", b"(", b"x", b")", b".", b"y", b"=", b"-", b"1.5", b";", b";", b"}", b"}"],
+        H2 + [b"message", b"M", b"{", b"oneof", b"o", b"{", b"option", b"(", b"oo", b")", b"=", b"1", b";", b"int32", b"a", b"=", b"1", b";", b"group", b"H", b"=", b"2", b"{", b"}", b"}", b"extend", b"M", b"{", b"repeated", b"group", b"X", b"=", b"100", b"{", b"}", b"}", b"}"],
+        H3 + [b"enum", b"E", b"{", b"option", b"allow_alias", b"=", b"true", b";", b"A", b"=", b"0", b"[", b"(", b"v", b")", b"=", b"'x'", b"'y'", b"]", b";", b"B", b"=", b"-", b"1", b";", b"reserved", b"5", b"to", b"max", b",", b"-", b"3", b";", b"reserved", b"\"Z\"", b";", b"}"],
+    ]
+    for d in decls:
+        for var in range(5):
+            out.append(unique_render(d, v + var))
+        v += 5
+    return out
+
+
 def run(ctx):
     import glob, os
     rng = ctx.rng
@@ -70,9 +140,12 @@ def run(ctx):
     ins += [b"message Foo { ; }", b"message Foo { ; ; /* c */ ; }", b"enum E { ; A = 0; }", b"service S { ; }", b"service S { rpc R(M) returns (M) { ; } }",
             b"message M { oneof o { int32 a = 1; ; } }", b"; ; message A {} ;", b"syntax = \"proto3\"; ; message A { ; int32 x = 1; ; }",
             b"", b"\xef\xbb\xbf", b"// only a comment", b"\n\n", b"/* c */", b"\xef\xbb\xbfsyntax = \"proto3\";", b"syntax=\"proto3\";message A{}"]
+    ncore = len(ins)
+    ins += grammar_cases(ctx)
     ctx.rule = ("the repository's testdata files + accepted programs rendered from %d token templates with random whitespace (space, tab, CR LF, FF, VT, "
                 "blank lines), line / block / doc comments incl. multi-byte characters between any two tokens, optional BOM, missing final newline; "
-                "each is parsed, the suite's printAST walk is replayed and compared with the bytes; the lexer's item list is compared with the "
+                "small files with every keyword as first / middle / last component of a dotted identifier in every position of the grammar and "
+                "every kind of declaration, each token with its own trivia; each is parsed, the suite's printAST walk is replayed and compared with the bytes; the lexer's item list is compared with the "
                 "model; distinct = distinct text; non-trivial = accepted by the parser and longer than 10 bytes" % len(TEMPLATES))
     par = ctx.impl("lexer", [{"mode": "parse", "data": d.hex()} for d in ins])
     lex = ctx.impl("lexer", [{"mode": "lex", "data": d.hex()} for d in ins])
@@ -101,7 +174,7 @@ def run(ctx):
             terms.append(coq_lex_case(d, lo))
             meta.append((d, lo))
     ctx.extra["accepted_inputs"] = acc
-    ctx.sample({"text": ins[20].decode("latin1")[:300]}); ctx.sample({"text": ins[-9].decode("latin1")[:300]})
+    ctx.sample({"text": ins[20].decode("latin1")[:300]}); ctx.sample({"text": ins[ncore - 9].decode("latin1")[:300]}); ctx.sample({"text": ins[ncore + 7].decode("latin1")[:300]})
     ctx.extra["model_evaluated_cases"] = len(terms)
     mism, err = coq_eval_mismatches("cases_C11", HEADER, terms, "lex_chk", shard_size=25)
     if err:
